@@ -33,6 +33,9 @@ fn entry_alphabet() -> Vec<Entry> {
     v.push(ind("forall N$i (N$i >= 0 -> (in(N$i) -> out(N$i)))"));
     v.push(ind("forall N$i X (N$i >= -1 -> (in(N$i) and in(X) -> out(X)))"));
     v.push(ind("forall N$i (N$i >= 1 -> (exists N$i (in(N$i)) or out(N$i)))"));
+    // the antecedent of an inductive lemma is ONE comparison N >= n; a chain is malformed
+    v.push(Entry { role: "inductive-lemma", dir: "", body: "forall N$i (N$i >= 0 != N$i - 1 -> in(N$i))", def_pred: None, invalid: Some("malformed inductive antecedent (chained comparison)") });
+    v.push(Entry { role: "inductive-lemma", dir: "", body: "forall N$i (N$i >= 0 >= 0 -> (in(N$i) -> out(N$i)))", def_pred: None, invalid: Some("malformed inductive antecedent (chained comparison)") });
     // a general variable that shares its name with the integer induction variable (quantified before it / free)
     v.push(ind("forall N N$i (N$i >= 0 -> (in(N) and in(N$i) -> out(N$i) or out(N)))"));
     v.push(ind("forall N$i (N$i >= 0 -> (in(N) -> out(N$i)))"));
@@ -242,11 +245,12 @@ fn check_family(
 fn definitions_valid(o: &Outline, task_preds: &[(String, usize)]) -> Option<String> {
     let mut defined: Vec<(String, usize)> = vec![];
     for (e, name) in &o.entries {
-        if e.role != "definition" {
-            continue;
-        }
+        // an entry the reference considers malformed (of any role) makes the whole outline unacceptable
         if let Some(why) = e.invalid {
             return Some(format!("{name}: {why}"));
+        }
+        if e.role != "definition" {
+            continue;
         }
         let (p, a) = e.def_pred.unwrap();
         let k = (p.to_string(), a);
@@ -394,7 +398,7 @@ pub fn run(run: &Run) {
     let tasks = base_tasks();
     run.set_extra("outlines_generated", json!(outlines.len()));
     run.set_extra("base_tasks", json!(tasks.len()));
-    run.set_rule("every outline of 1-2 entries and a stride of 3-entry outlines over 25 entry shapes (5 lemmas incl. free variables and references to definitions, 5 inductive lemmas incl. negative start, extra variables, induction variable rebound inside, a general variable named like the induction variable; 15 definitions incl. 0-ary ones and task-predicate symbols at another arity, 10 of them invalid for a listed reason) x 3 direction annotations, on 6 base tasks (program/program with assumption, clashing private predicates, specification with directed formulas, placeholder, declared-only second input with and without an assumption) x 3 task directions x 2 decompositions: structural check of every emitted problem (axioms only from premises of the direction, accepted definitions, lemmas established earlier; order; obligations present), definition acceptance against the reference predicate, and semantic check of every base/step obligation against environment-update evaluation on all interpretations; non-trivial = distinct (problem-name list) / step tables");
+    run.set_rule("every outline of 1-2 entries and a stride of 3-entry outlines over 27 entry shapes (5 lemmas incl. free variables and references to definitions, 7 inductive lemmas (two with a chained antecedent, which must be refused) incl. negative start, extra variables, induction variable rebound inside, a general variable named like the induction variable; 15 definitions incl. 0-ary ones and task-predicate symbols at another arity, 10 of them invalid for a listed reason) x 3 direction annotations, on 6 base tasks (program/program with assumption, clashing private predicates, specification with directed formulas, placeholder, declared-only second input with and without an assumption) x 3 task directions x 2 decompositions: structural check of every emitted problem (axioms only from premises of the direction, accepted definitions, lemmas established earlier; order; obligations present), definition acceptance against the reference predicate, and semantic check of every base/step obligation against environment-update evaluation on all interpretations; non-trivial = distinct (problem-name list) / step tables");
     let plain_cache: Vec<Vec<(String, Decomposition, Vec<Problem>)>> = tasks
         .iter()
         .map(|t| {
@@ -470,8 +474,8 @@ pub fn run(run: &Run) {
                         run.observe(hash_of(&ps.iter().map(|p| p.name.clone()).collect::<Vec<_>>()));
                         if let Some(why) = &invalid {
                             run.violation(
-                                format!("invalid_definition_accepted|{}", why.split(": ").nth(1).unwrap_or(why)),
-                                json!({"kind": "outline with an invalid definition was accepted", "why": why, "item": desc}),
+                                format!("invalid_entry_accepted|{}", why.split(": ").nth(1).unwrap_or(why)),
+                                json!({"kind": "outline with an invalid entry was accepted", "why": why, "item": desc}),
                             );
                         }
                         let placeholders: indexmap::IndexMap<String, fol::FunctionConstant> = t2
